@@ -164,6 +164,102 @@ theorem C17_roundtrip_leaflist_bytes_leading_empty :
     roundTrip (.leaflist [.bytes [], .bytes [1]]) [] = .ok (.leaflist [.bytes [], .bytes [1]]) := by
   decide +kernel
 
+/-- Leaf-lists, the statement of the property with the two conditions the encodings need
+    (`leafListOK`: non-empty, one type, supported members, one decimal precision, no 0x1D in a
+    string member, no empty bytes member): the list read back is the list set. -/
+theorem C17_roundtrip_leaflist (es : List Scalar) (opts : List Nat) (h : leafListOK es = true) :
+    roundTrip (.leaflist es) opts = .ok (.leaflist (es.map norm)) := by
+  cases es with
+  | nil => simp [leafListOK] at h
+  | cons e r =>
+    cases e with
+    | str b =>
+      simp only [leafListOK] at h
+      cases hc : collectStrs (.str b :: r) with
+      | none => simp [hc] at h
+      | some xs =>
+        simp only [hc] at h
+        obtain ⟨h1, h2⟩ := collectStrs_spec _ xs hc
+        have hne : xs ≠ [] := by intro hx; subst hx; simp at h1
+        rw [h2, h1]; exact C17_roundtrip_leaflist_string_partial xs opts hne h
+    | ascii b =>
+      simp only [leafListOK] at h
+      cases hc : collectStrs (.ascii b :: r) with
+      | none => simp [hc] at h
+      | some xs =>
+        simp only [hc] at h
+        obtain ⟨h1, h2⟩ := collectStrs_spec _ xs hc
+        have hne : xs ≠ [] := by intro hx; subst hx; simp at h1
+        rw [h2, h1]; exact C17_roundtrip_leaflist_string_partial xs opts hne h
+    | int i =>
+      simp only [leafListOK] at h
+      cases hc : collectInts (.int i :: r) with
+      | none => simp [hc] at h
+      | some xs =>
+        simp only [hc, List.all_eq_true] at h
+        have h1 := collectInts_spec _ xs hc
+        have hne : xs ≠ [] := by intro hx; subst hx; simp at h1
+        rw [h1]; simp only [List.map_map]
+        have : (norm ∘ Scalar.int) = Scalar.int := by funext x; rfl
+        rw [this]; exact C17_roundtrip_leaflist_int xs opts hne h
+    | uint n =>
+      simp only [leafListOK] at h
+      cases hc : collectUints (.uint n :: r) with
+      | none => simp [hc] at h
+      | some xs =>
+        simp only [hc, List.all_eq_true] at h
+        have h1 := collectUints_spec _ xs hc
+        have hne : xs ≠ [] := by intro hx; subst hx; simp at h1
+        rw [h1]; simp only [List.map_map]
+        have : (norm ∘ Scalar.uint) = Scalar.uint := by funext x; rfl
+        rw [this]; exact C17_roundtrip_leaflist_uint xs opts hne h
+    | bool b =>
+      simp only [leafListOK] at h
+      cases hc : collectBools (.bool b :: r) with
+      | none => simp [hc] at h
+      | some xs =>
+        have h1 := collectBools_spec _ xs hc
+        have hne : xs ≠ [] := by intro hx; subst hx; simp at h1
+        rw [h1]; simp only [List.map_map]
+        have : (norm ∘ Scalar.bool) = Scalar.bool := by funext x; rfl
+        rw [this]; exact C17_roundtrip_leaflist_bool xs opts hne
+    | bytes b =>
+      simp only [leafListOK] at h
+      cases hc : collectBytess (.bytes b :: r) with
+      | none => simp [hc] at h
+      | some xs =>
+        simp only [hc, Bool.and_eq_true, List.all_eq_true, decide_eq_true_eq] at h
+        have h1 := collectBytess_spec _ xs hc
+        have hne : xs ≠ [] := by intro hx; subst hx; simp at h1
+        rw [h1]; simp only [List.map_map]
+        have : (norm ∘ Scalar.bytes) = Scalar.bytes := by funext x; rfl
+        rw [this]; exact C17_roundtrip_leaflist_bytes_partial xs opts hne h.1 h.2
+    | dec d p =>
+      simp only [leafListOK] at h
+      cases hc : collectDecs p (.dec d p :: r) with
+      | none => simp [hc] at h
+      | some xs =>
+        simp only [hc, Bool.and_eq_true, List.all_eq_true, decide_eq_true_eq] at h
+        have h1 := collectDecs_spec p _ xs hc
+        have hne : xs ≠ [] := by intro hx; subst hx; simp at h1
+        rw [h1]; simp only [List.map_map]
+        have : (norm ∘ fun d => Scalar.dec d p) = fun d => Scalar.dec d p := by funext x; rfl
+        rw [this]; exact C17_roundtrip_leaflist_decimal xs p opts hne h.1 h.2
+    | float f =>
+      simp only [leafListOK] at h
+      cases hc : collectFloats (.float f :: r) with
+      | none => simp [hc] at h
+      | some xs =>
+        simp only [hc, List.all_eq_true, Bool.and_eq_true, decide_eq_true_eq, Bool.not_eq_true'] at h
+        have h1 := collectFloats_spec _ xs hc
+        have hne : xs ≠ [] := by intro hx; subst hx; simp at h1
+        rw [h1]; simp only [List.map_map]
+        have : (norm ∘ Scalar.float) = Scalar.float := by funext x; rfl
+        rw [this]; exact C17_roundtrip_leaflist_float xs opts hne h
+    | decNil => simp [leafListOK] at h
+    | anyNil => simp [leafListOK] at h
+    | other => simp [leafListOK] at h
+
 /-! ## Stored = sent = read -/
 
 /-- The value sent to the device and the value returned by Get (PROTO) are computed from the
@@ -314,5 +410,113 @@ theorem C17_json_decimal_sign_fails :
   constructor
   · decide +kernel
   · decide
+
+/-- a precision of 64 makes `strDecimal64` divide by `10^64 mod 2^64 = 0`: a panic where the
+    JSON document is built (known finding KF-C17-decimal-precision-panic; outside YANG's 1..18). -/
+theorem C17_json_decimal_precision_64_panics :
+    jsonOf (.scalar (.dec 1234 64)) [] false = .error .panic := by
+  decide +kernel
+
+/-! ### leaf-lists in the document -/
+
+/-- An int leaf-list is an array of JSON numbers for a model width ≤ 32 and an array of JSON
+    strings of the members' digits for width 64. -/
+theorem C17_json_leaflist_int (xs : List Int) (opts : List Nat) (st : Bool) (hne : xs ≠ [])
+    (h : ∀ x ∈ xs, isInt64 x = true) (hw : widthOK opts = true) :
+    jsonOf (.leaflist (xs.map .int)) opts st =
+      .ok (some (.arr (if modelWidth opts > 32 then xs.map fun x => .str (asciiBytes (fmtInt x))
+                       else xs.map .num))) := by
+  have hv := tvLLInt_newLLInt xs (llWidth (opts.headD 0 % 256)) h
+  simp only [jsonOf, toNative, handleLeafList_ints _ _ hne, jsonLeaf]
+  simp only [newLLInt, llWidth_of_widthOK opts hw] at hv ⊢
+  simp only [hv]
+  by_cases hgt : modelWidth opts > 32
+  · have : ((modelWidth opts : Nat) : Int) > 32 := by omega
+    simp [hgt, this]
+  · have : ¬(((modelWidth opts : Nat) : Int) > 32) := by omega
+    simp [hgt, this]
+
+/-- A uint leaf-list likewise. -/
+theorem C17_json_leaflist_uint (xs : List Nat) (opts : List Nat) (st : Bool) (hne : xs ≠ [])
+    (h : ∀ x ∈ xs, isUint64 x = true) (hw : widthOK opts = true) :
+    jsonOf (.leaflist (xs.map .uint)) opts st =
+      .ok (some (.arr (if modelWidth opts > 32 then xs.map fun x => .str (asciiBytes (fmtNat x))
+                       else xs.map fun x => .num (x : Nat)))) := by
+  have hv := tvLLUint_newLLUint xs (llWidth (opts.headD 0 % 256)) h
+  simp only [jsonOf, toNative, handleLeafList_uints _ _ hne, jsonLeaf]
+  simp only [newLLUint, llWidth_of_widthOK opts hw] at hv ⊢
+  simp only [hv]
+  by_cases hgt : modelWidth opts > 32
+  · have : ((modelWidth opts : Nat) : Int) > 32 := by omega
+    simp [hgt, this]
+  · have : ¬(((modelWidth opts : Nat) : Int) > 32) := by omega
+    simp [hgt, this]
+
+/-- A bool leaf-list is an array of `true` / `false`. -/
+theorem C17_json_leaflist_bool (xs : List Bool) (opts : List Nat) (st : Bool) (hne : xs ≠ []) :
+    jsonOf (.leaflist (xs.map .bool)) opts st = .ok (some (.arr (xs.map .bool))) := by
+  have hv := tvLLBool_newLLBool xs
+  simp only [jsonOf, toNative, handleLeafList_bools _ _ hne, jsonLeaf]
+  simp only [newLLBool] at hv ⊢
+  simp only [hv]
+
+/-- A string leaf-list without 0x1D in its members is an array of JSON strings of the members. -/
+theorem C17_json_leaflist_string_partial (xs : List (Bool × Bytes)) (opts : List Nat) (st : Bool) (hne : xs ≠ [])
+    (h : no1D (xs.map (·.2)) = true) :
+    jsonOf (.leaflist (xs.map strScalar)) opts st = .ok (some (.arr ((xs.map (·.2)).map .str))) := by
+  simp only [jsonOf, toNative, handleLeafList_strs _ _ hne, jsonLeaf, newLLString, tvLLString]
+  rw [splitGS_joinGS _ (by simpa using hne) h]
+
+/-- A bytes leaf-list without empty members is an array of JSON strings holding the members'
+    base64 texts. -/
+theorem C17_json_leaflist_bytes_partial (xs : List Bytes) (opts : List Nat) (st : Bool) (hne : xs ≠ [])
+    (h : noEmptyMember xs = true) (hlen : ∀ v ∈ xs, v.length < 2147483648) :
+    jsonOf (.leaflist (xs.map .bytes)) opts st = .ok (some (.arr (xs.map fun b => .str (base64 b)))) := by
+  simp only [jsonOf, toNative, handleLeafList_bytess _ _ hne, jsonLeaf]
+  rw [tvLLBytes_newLLBytes xs hne h hlen]; rfl
+
+/-- A decimal64 leaf-list is *not* rendered as decimal strings: `handleLeafValue` stores Go
+    float64s (`ListFloat`), whatever `jsonRFC7951` says (known finding KF-C17-lldecimal-float;
+    the text of a Go float is outside the twin). -/
+theorem C17_json_leaflist_decimal_is_float (ds : List Int) (p : Nat) (opts : List Nat) (st : Bool) (hne : ds ≠ [])
+    (h : ∀ d ∈ ds, isInt64 d = true) (hp : p < 256) :
+    jsonOf (.leaflist (ds.map fun d => .dec d p)) opts st = .ok (some .floatText) := by
+  have hp' : p % 256 = p := Nat.mod_eq_of_lt hp
+  have hv := tvLLDecimal_newLLDecimal ds p h hp
+  simp only [jsonOf, toNative, handleLeafList_decs _ _ _ hne, hp', jsonLeaf]
+  simp only [newLLDecimal] at hv ⊢
+  simp only [hv]; rfl
+
+/-- A scalar float is rendered through `%f` (a string of a Go float: outside the twin; the
+    correspondence monitor reads the real text — known finding KF-C17-float-percent-f). -/
+theorem C17_json_float_is_float_text (f : Nat) (opts : List Nat) (st : Bool) (hn : isNaN32 f = false) :
+    jsonOf (.scalar (.float f)) opts st = .ok (some .floatText) := by
+  simp [jsonOf, toNative, hn, jsonLeaf, newFloat]
+
+/-! ## non-vacuity: the hypotheses are satisfied by concrete boundary values -/
+
+example : scalarOK (.int (-9223372036854775808)) = true := by decide
+example : scalarOK (.int 9223372036854775807) = true := by decide
+example : scalarOK (.uint 18446744073709551615) = true := by decide
+example : scalarOK (.str []) = true ∧ scalarOK (.bytes []) = true := by decide
+example : scalarOK (.dec (-9223372036854775808) 18) = true := by decide
+example : scalarOK (.float 0x7F7FFFFF) = true ∧ scalarOK (.float 1) = true ∧ scalarOK (.float 0xFF800000) = true := by decide
+example : roundTrip (.scalar (.int (-9223372036854775808))) [64] = .ok (.scalar (.int (-9223372036854775808))) :=
+  C17_roundtrip_scalar _ _ (by decide)
+example : roundTrip (.scalar (.uint 18446744073709551615)) [64] = .ok (.scalar (.uint 18446744073709551615)) :=
+  C17_roundtrip_scalar _ _ (by decide)
+example : leafListOK [.int (-9223372036854775808), .int 0, .int 9223372036854775807] = true := by decide
+example : leafListOK [.str [], .ascii [97], .str []] = true := by decide
+example : leafListOK [.bytes [0], .bytes [1, 2, 3]] = true := by decide
+example : leafListOK [.dec (-5) 2, .dec 123456 2] = true := by decide
+example : leafListOK [.float 0x3DCCCCCD, .float 0x80000000] = true := by decide
+example : widthOK [64] = true ∧ widthOK [] = true ∧ widthOK [8] = true := by decide
+example : noEmptyMember [[1], [2, 3]] = true ∧ no1D [[], [97]] = true := by decide
+example : (0 : Int) ≤ 5 ∨ (5 : Int) ≤ -((10 ^ 2 : Nat) : Int) := Or.inl (by decide)
+example : jsonOf (.scalar (.int 9223372036854775807)) [64] true =
+    .ok (some (.scalar (.str (asciiBytes "9223372036854775807".toList)))) := by
+  rw [C17_json_int _ _ _ (by decide) (by decide)]; decide
+example : jsonOf (.scalar (.dec (-12345) 2)) [] false = .ok (some (.scalar (.str (asciiBytes "-123.45".toList)))) := by
+  rw [C17_json_decimal_partial _ _ _ _ (by decide) (by decide) (Or.inr (by decide))]; decide
 
 end OnosVerif.Props.C17
